@@ -161,6 +161,7 @@ class Row:
         self.reflected = reflected
         self.random = False
         self.related = {self.name}  # attribute names Python may dispatch to
+        self.defaults = {}          # param name -> documented default
 
     @property
     def nreq(self):
@@ -294,6 +295,8 @@ def build_table(ctx):
             rows['m:' + name] = Row(
                 'm:' + name, arity, params, orc,
                 (lambda a, *r, _n=name: getattr(a, _n)(*r)))
+            rows['m:' + name].defaults = {
+                p.name: p.default for p in ps if p.default is not p.empty}
     for key, row in rows.items():
         if row.src != 'd':
             continue
@@ -485,7 +488,12 @@ def build(e, env):
 def model(e, env):
     if e['k'] != 'op':
         return model_leaf(e, env)
-    return M.lift(TABLE[e['op']].oracle, [model(a, env) for a in e['args']])
+    row = TABLE[e['op']]
+    args = [model(a, env) for a in e['args']]
+    if row.src == 'm':      # omitted arguments take the method's defaults
+        for pname, _ in row.params[len(args) - 1:]:
+            args.append(row.defaults[pname])
+    return M.lift(row.oracle, args)
 
 
 def to_stream(p, pmode):
@@ -805,7 +813,12 @@ def mixed_ok(a, b):
 @st.composite
 def lift_case(draw):
     arity = draw(st.sampled_from(['un', 'bin', 'bin', 'nar']))
-    rows = [TABLE[k] for k in ROWS if TABLE[k].arity == arity]
+    # spelling family first, so that the 26 Python-operator rows are not
+    # drowned by the 200 named ones
+    src = draw(st.sampled_from(['d', 'd', 'm', 'm', 'b', 'b'] if arity != 'nar'
+                               else ['m', 'b']))
+    rows = [TABLE[k] for k in ROWS
+            if TABLE[k].arity == arity and TABLE[k].src == src]
     row = draw(st.sampled_from(rows))
     listfn = draw(st.integers(0, 99)) < 8
     if listfn:
@@ -826,7 +839,8 @@ def lift_case(draw):
             kinds = [k1]
         elif row.arity == 'bin':
             shape = draw(st.sampled_from(
-                ['kn', 'nk', 'kk', 'mix', 'mix', 'mix']))
+                ['kn', 'nk', 'nk', 'nk', 'kk', 'kk', 'mix', 'mix', 'mix',
+                 'mix'] + (['kk', 'kk'] if k1 == 'lst' else [])))
             can_left = row.src == 'b' or (row.src == 'd' and row.reflected)
             if shape == 'nk' and not can_left:
                 shape = 'kn'
